@@ -23,6 +23,14 @@ type Mutex struct{ m rs.Mutex }
 
 func (m *Mutex) Lock() {
 	sched.Point(sched.KLock, uintptr(unsafe.Pointer(m)))
+	if sched.Active() {
+		// granted means no scheduled thread holds it; if the real mutex is locked anyway it was
+		// leaked by an earlier phase (e.g. a call that returned without unlocking)
+		if !m.m.TryLock() {
+			sched.Stuck("mutex is locked although no thread holds it: leaked by an earlier call")
+		}
+		return
+	}
 	m.m.Lock()
 }
 
@@ -50,6 +58,12 @@ type RWMutex struct{ m rs.RWMutex }
 
 func (m *RWMutex) Lock() {
 	sched.Point(sched.KLock, uintptr(unsafe.Pointer(m)))
+	if sched.Active() {
+		if !m.m.TryLock() {
+			sched.Stuck("rwmutex is locked although no thread holds it: leaked by an earlier call")
+		}
+		return
+	}
 	m.m.Lock()
 }
 func (m *RWMutex) Unlock() {
@@ -58,6 +72,12 @@ func (m *RWMutex) Unlock() {
 }
 func (m *RWMutex) RLock() {
 	sched.Point(sched.KRLock, uintptr(unsafe.Pointer(m)))
+	if sched.Active() {
+		if !m.m.TryRLock() {
+			sched.Stuck("rwmutex is write-locked although no thread holds it: leaked by an earlier call")
+		}
+		return
+	}
 	m.m.RLock()
 }
 func (m *RWMutex) RUnlock() {
